@@ -237,6 +237,32 @@ fn rand_data(rng: &mut Rng, k: usize, sb: usize) -> Vec<Vec<u8>> { (0..k).map(|_
 /// like rand_data, but about every sixth shard is all zero (exercises code that treats zero shards specially)
 fn rand_data_z(rng: &mut Rng, k: usize, sb: usize) -> Vec<Vec<u8>> { (0..k).map(|_| if rng.below(6) == 0 { vec![0u8; sb] } else { rng.bytes(sb) }).collect() }
 
+/// structured data: each 64-byte block (and the shorter last one) is random, all zero, zero in its low half (the low bytes of
+/// its symbols) only, zero in its high half only, one repeated byte, or a copy of the same block of the previous shard -
+/// the operand shapes a data-dependent shortcut in a kernel would key on
+fn rand_data_s(rng: &mut Rng, k: usize, sb: usize) -> Vec<Vec<u8>> {
+    let mut out: Vec<Vec<u8>> = Vec::with_capacity(k);
+    for i in 0..k {
+        let mut s = rng.bytes(sb);
+        let mut b = 0;
+        while b < sb {
+            let l = (sb - b).min(64); let h = l / 2;
+            match rng.below(8) {
+                0 => for x in &mut s[b..b + l] { *x = 0 },
+                1 => for x in &mut s[b..b + h] { *x = 0 },
+                2 => for x in &mut s[b + h..b + l] { *x = 0 },
+                3 => { let v = s[b]; for x in &mut s[b..b + l] { *x = v } }
+                4 if i > 0 => { let p = out[i - 1][b..b + l].to_vec(); s[b..b + l].copy_from_slice(&p); }
+                5 if i > 0 => { let p = out[i - 1][b..b + h].to_vec(); s[b..b + h].copy_from_slice(&p); }
+                _ => {}
+            }
+            b += 64;
+        }
+        out.push(s);
+    }
+    out
+}
+
 fn roundtrip(s: usize) -> bool {
     let mut rng = Rng::new(seed()); let mut n = 0u64;
     for k in 1..s { for r in 1..=(s - k) { for c in [Codec::High, Codec::Low, Codec::Default] {
@@ -283,7 +309,7 @@ fn rand_blocks(rng: &mut Rng, n: usize) -> Vec<[u8; 64]> { (0..n).map(|_| { let 
 /// one configuration on every engine: encode vs NoSimd, decode of a sufficient subset (miss: at least one original is missing) vs the data
 fn engines_cfg(rng: &mut Rng, c: Codec, k: usize, r: usize, sb: usize, miss: bool) -> Result<u64, String> {
     let mut cnt = 0u64;
-    let data = rand_data(rng, k, sb);
+    let data = if rng.below(2) == 0 { rand_data(rng, k, sb) } else { rand_data_s(rng, k, sb) };
     let base = enc_with(c, NoSimd::new(), k, r, &data).unwrap();
     let (o, rc): (Vec<(usize, Vec<u8>)>, Vec<(usize, Vec<u8>)>) = if miss {
         let mut oi: Vec<usize> = (0..k).collect(); shuffle(rng, &mut oi); let mut ri: Vec<usize> = (0..r).collect(); shuffle(rng, &mut ri);
@@ -347,7 +373,8 @@ fn engines_primitives(n: usize) -> Result<u64, String> {
     let es = engine_list();
     // Engine::mul on multi-block buffers
     for t in 0..3 {
-        let blocks = [rng.below(6), 2 + rng.below(4), 1 + rng.below(5)][t]; let buf = rand_blocks(&mut rng, blocks);
+        let blocks = [rng.below(6), 2 + rng.below(4), 1 + rng.below(5)][t]; let mut buf = rand_blocks(&mut rng, blocks);
+        if t == 2 { for (i, b) in buf.iter_mut().enumerate() { match i % 3 { 0 => for x in &mut b[..32] { *x = 0 }, 1 => for x in &mut b[32..] { *x = 0 }, _ => {} } } }
         for log_m in [rng.next() as u16, 0, 1, 65534, 65535] {
             let mut a = buf.clone(); es[0].1.mul(&mut a, log_m);
             for (name, e) in &es[1..] { let mut b = buf.clone(); e.mul(&mut b, log_m); if a != b { return Err(format!("mul {} vs nosimd blocks={} log_m={}", name, buf.len(), log_m)); } cnt += 1; }
